@@ -13,4 +13,7 @@ var SiteFlags []uint8
 var SiteFunc []int32
 var SiteGroups [][]int32
 var FuncNames []string
+var SiteLine []int32
+var SiteFile []int16
+var FileNames []string
 var Instrumented = false
